@@ -178,11 +178,8 @@ func runCase(t lib.TB, test string, ops []op) (st stats) {
 		}
 		for _, kv := range kvs { // as util.SaveKVList: a nil value deletes
 			if kv.Value == nil {
-				err = mem.Delete(kv.Key)
-			} else {
-				err = mem.Set(kv.Key, kv.Value)
-			}
-			if err != nil {
+				_ = mem.Delete(kv.Key) // deleting an absent record is not an error on the real write path (batch delete)
+			} else if err := mem.Set(kv.Key, kv.Value); err != nil {
 				lib.Inconclusive("apply save records: %v", err)
 			}
 		}
